@@ -214,6 +214,11 @@ pub enum Decision {
     HoldAck(u32),
     /// acknowledge after this many ms
     DelayAck(u32),
+    /// HTTP/1: write a complete `200` head that announces a body (`Content-Length: 64`, or
+    /// `Transfer-Encoding: chunked` when `chunked`), optionally the first 10 bytes of that body
+    /// (`in_body`), flush, then close the connection gracefully (FIN, not RST: TCP delivers the head
+    /// before the EOF, so the peer necessarily sees the 2xx before the close). gRPC: a plain acknowledgement
+    AckThenClose { chunked: bool, in_body: bool },
     /// HTTP: respond with this non-2xx status. gRPC: that `:status` without any `grpc-status`
     Status(u16),
     /// gRPC: respond with this non-zero `grpc-status`
@@ -233,7 +238,11 @@ pub enum Decision {
 
 impl Decision {
     pub fn is_ack(self) -> bool {
-        matches!(self, Decision::Ack(_) | Decision::HoldAck(_) | Decision::DelayAck(_))
+        matches!(self, Decision::Ack(_) | Decision::HoldAck(_) | Decision::DelayAck(_) | Decision::AckThenClose { .. })
+    }
+
+    pub fn is_ack_then_close(self) -> bool {
+        matches!(self, Decision::AckThenClose { .. })
     }
 
     pub fn is_fault(self) -> bool {
@@ -244,7 +253,7 @@ impl Decision {
     pub fn breaks_connection(self) -> bool {
         matches!(
             self,
-            Decision::Stall | Decision::StallAt(..) | Decision::DropOnAccept | Decision::DropBeforeBody | Decision::DropAfterRead
+            Decision::Stall | Decision::StallAt(..) | Decision::DropOnAccept | Decision::DropBeforeBody | Decision::DropAfterRead | Decision::AckThenClose { .. }
         )
     }
 
@@ -278,6 +287,7 @@ impl Decision {
             Decision::Ack(c) => format!("ack{}", c),
             Decision::HoldAck(_) => "hold-ack".into(),
             Decision::DelayAck(_) => "delay-ack".into(),
+            Decision::AckThenClose { chunked, in_body } => format!("ack200-{}-then-close-{}", if chunked { "chunked" } else { "content-length" }, if in_body { "inside-the-body" } else { "before-the-body" }),
             Decision::Status(c) => format!("status{}", c),
             Decision::GrpcStatus(c, GrpcForm::Trailers) => format!("grpc{}", c),
             Decision::GrpcStatus(c, GrpcForm::TrailersOnly) => format!("grpc{}-trailers-only", c),
@@ -293,6 +303,7 @@ impl Decision {
     pub fn class(self) -> &'static str {
         match self {
             Decision::Ack(_) | Decision::HoldAck(_) | Decision::DelayAck(_) => "ack",
+            Decision::AckThenClose { .. } => "ack-then-close",
             Decision::Status(_) => "non-2xx",
             Decision::GrpcStatus(_, GrpcForm::Trailers) => "grpc-status",
             Decision::GrpcStatus(_, GrpcForm::TrailersOnly) => "grpc-status-trailers-only",
@@ -1106,6 +1117,48 @@ async fn serve_http1(shared: Arc<Shared>, ep: Arc<Endpoint>, mut stream: TcpStre
             // never answered: keep reading, so that the peer's close - or a request wrongly sent on
             // this abandoned connection - is seen
             Decision::Stall => continue,
+            Decision::AckThenClose { chunked, in_body } => {
+                let mut out = format!(
+                    "HTTP/1.1 200 OK\r\nContent-Type: {}\r\n{}\r\n\r\n",
+                    if is_json { "application/json" } else { "application/x-protobuf" },
+                    if chunked { "Transfer-Encoding: chunked" } else { "Content-Length: 64" }
+                )
+                .into_bytes();
+                if in_body {
+                    if chunked {
+                        out.extend_from_slice(b"40\r\n");
+                    }
+                    out.extend_from_slice(b"{\"partial");
+                }
+                shared.update(idx, |r| r.responding = Some(stamp()));
+                let res = async {
+                    stream.write_all(&out).await?;
+                    stream.flush().await
+                }
+                .await;
+                match res {
+                    Ok(()) => shared.update(idx, |r| {
+                        r.responded = Some(stamp());
+                        r.done = r.responded;
+                    }),
+                    Err(e) => shared.update(idx, |r| {
+                        r.io_note = Some(format!("writing the response head failed: {}", e));
+                        r.done = Some(stamp());
+                        r.peer_gone = true;
+                    }),
+                }
+                // FIN, then wait for the peer's own close so that nothing unread turns the close into a reset
+                let _ = stream.shutdown().await;
+                let mut sink = [0u8; 1024];
+                loop {
+                    tokio::select! {
+                        _ = shutdown.changed() => break,
+                        n = stream.read(&mut sink) => match n { Ok(0) | Err(_) => break, Ok(_) => {} }
+                    }
+                }
+                shared.close_conn(conn, true);
+                return;
+            }
             Decision::StallAt(phase, status) => {
                 let head = format!(
                     "HTTP/1.1 {} {}\r\nContent-Type: {}\r\nContent-Length: 64\r\n\r\n",
@@ -1330,7 +1383,7 @@ async fn handle_h2(
             });
             return;
         }
-        Decision::Ack(_) | Decision::HoldAck(_) | Decision::DelayAck(_) => {
+        Decision::Ack(_) | Decision::HoldAck(_) | Decision::DelayAck(_) | Decision::AckThenClose { .. } => {
             match decision {
                 Decision::HoldAck(max) => wait_gate(&shared, max).await,
                 Decision::DelayAck(ms) => tokio::time::sleep(Duration::from_millis(ms as u64)).await,
